@@ -22,13 +22,13 @@ export CARGO_NET_OFFLINE=true
 {
 echo "== confirm $(date -u +%FT%TZ) repo HEAD $(git rev-parse --short HEAD)"
 echo "-- demo on the unchanged tree: $DEMO_CMD"
-timeout 900 bash -c "$DEMO_CMD" > "$D/demo_clean.log" 2>&1; RC1=$?
+timeout 2400 bash -c "$DEMO_CMD" > "$D/demo_clean.log" 2>&1; RC1=$?
 echo "   exit $RC1 (expected 0)"
 echo "-- apply patch"
 git apply "$D/patch.diff" 2>&1 || { echo "   APPLY FAILED"; RC1=99; }
 git diff --stat | tail -1
 echo "-- demo with the patch"
-timeout 900 bash -c "$DEMO_CMD" > "$D/demo_patched.log" 2>&1; RC2=$?
+timeout 2400 bash -c "$DEMO_CMD" > "$D/demo_patched.log" 2>&1; RC2=$?
 echo "   exit $RC2 (expected non-zero)"
 if [ "$SUITE" != "--no-suite" ]; then
   rm -f "$DEMO_PATH"
